@@ -125,7 +125,7 @@ Qed.
 (* the protocol's header nodeid of a request *)
 Definition hdr_of (o : op) : N :=
   match o with
-  | OLookup n _ | OForget n | OGetattr n | OSetattr n _ _ | OFwd _ n _ | OReaddir _ n _ _ _ | ORename n _ _ _ => n
+  | OLookup n _ | OForget n | OGetattr n | OSetattr n _ _ _ | OFwd _ n _ | OReaddir _ n _ _ _ | ORename n _ _ _ => n
   | OLink _ np _ => np
   | OBatchForget _ _ | OUnfwd _ => 0
   end.
@@ -152,11 +152,11 @@ Qed.
 
 
 (* ---------- in: owner ids to be set (setattr) ---------- *)
-Theorem setattr_in : forall s c n u g a r ev evs, wf s -> vfs_op s c (OSetattr n u g) a = (r, ev :: evs) ->
+Theorem setattr_in : forall s c n u g valid a r ev evs, wf s -> vfs_op s c (OSetattr n u g valid) a = (r, ev :: evs) ->
   exists b idx i, eff s n = Some (b, idx, i) /\
     Some (ev_suid ev) = to_int (effective_mapping s idx) u /\ Some (ev_sgid ev) = to_int (effective_mapping s idx) g.
 Proof.
-  intros s c n u g a r ev evs W H. cbn [vfs_op] in H.
+  intros s c n u g valid a r ev evs W H. cbn [vfs_op] in H.
   grr W n; [|discriminate|discriminate].
   destruct (to_int (effective_mapping s idx) u) as [u'|] eqn:Eu; [|discriminate].
   destruct (to_int (effective_mapping s idx) g) as [g'|] eqn:Eg'; [|discriminate].
